@@ -277,6 +277,7 @@ impl Point {
     /// which encoding type was used (neutral, compressed, uncompressed)
     /// but not the value of the obtained point, nor whether the encoding
     /// was for a valid point.
+    #[cfg_attr(pornin_crrl_verif_cut, inline(never))]
     pub fn set_decode(&mut self, buf: &[u8]) -> u32 {
         *self = Self::NEUTRAL;
 
@@ -384,6 +385,7 @@ impl Point {
     /// is NOT the standard encoding of the neutral (standard is a single
     /// byte of of value 0x00); for a non-neutral point, the first byte
     /// is always equal to 0x02 or 0x03, never to 0x00.
+    #[cfg_attr(pornin_crrl_verif_cut, inline(never))]
     pub fn encode_compressed(self) -> [u8; 33] {
         let r = !self.isneutral();
         let iZ = GFp256::ONE / self.Z;  // this is 0 if Z = 0
@@ -889,6 +891,7 @@ impl Point {
     ///
     /// This operation is constant-time with regard to both the points
     /// and the scalar value.
+    #[cfg_attr(pornin_crrl_verif_cut, inline(never))]
     pub fn set_mul(&mut self, n: &Scalar) {
         // Make a 5-bit window: win[i] contains (i+1)*P
         let mut win = [Self::NEUTRAL; 16];
@@ -971,6 +974,7 @@ impl Point {
     ///
     /// This operation is constant-time. It is faster than using the
     /// generic multiplication on `Self::BASE`.
+    #[cfg_attr(pornin_crrl_verif_cut, inline(never))]
     pub fn set_mulgen(&mut self, n: &Scalar) {
         // Recode the scalar into 52 signed digits.
         let sd = Self::recode_scalar(n);
@@ -1083,6 +1087,7 @@ impl Point {
     ///
     /// THIS FUNCTION IS NOT CONSTANT-TIME; it shall be used only with
     /// public data.
+    #[cfg_attr(pornin_crrl_verif_cut, inline(never))]
     pub fn set_mul_add_mulgen_vartime(&mut self, u: &Scalar, v: &Scalar) {
         // Recode the scalars in 5-bit wNAF.
         let sdu = Self::recode_scalar_NAF(&u);
@@ -1172,6 +1177,7 @@ impl Point {
     ///
     /// THIS FUNCTION IS NOT CONSTANT-TIME; it shall be used only with
     /// public data.
+    #[cfg_attr(pornin_crrl_verif_cut, inline(never))]
     pub fn verify_helper_vartime(self,
         R: &Point, s: &Scalar, k: &Scalar) -> bool
     {
